@@ -711,7 +711,7 @@ func (s *state) swarmCases() {
 	s.r.Require("listener_parked_on_threshold_cases", 2)
 	s.r.Require("listener_cases_over_threshold", 2)
 	s.r.Require("swarm_dry_runs_echoed", 4)
-	s.r.Require("swarm_faults_fired", 400)
+	s.r.Require("swarm_faults_fired", 250)
 	s.r.Require("swarm_attempt_failed", 200)
 	s.r.Require("swarm_negotiation_failures", 1)
 }
